@@ -213,7 +213,8 @@ theorem C18_producer_first (Y : YieldFn) (F : BodyFn) (ts : List PTask) (w : Wor
 
 /-- **C18_generated.** A build reaches state `sm` and hands out the generator `g` (not skipped, its body does not raise).
 Let `kids` be what its body defines, given the files matching its pattern dependencies at that moment, all of them
-collectable (since f1fcb9a a defined task whose collection fails makes the generator FAIL and nothing is added). If the build
+collectable (since f1fcb9a a defined task whose collection fails makes the generator FAIL and nothing is added) and none of
+them with the name of an existing or of another defined task (6571c4f: the generator FAILs likewise). If the build
 then runs to its natural end (`s'`: nothing left to schedule, not stopped, no crash), every defined task `k` with a
 fresh id (a) was handed out in the *same* build, after the generator, (b) has a report, (c) had its function called at
 most once, and (d) was handed out only after all its own ancestors in the then-current graph had finished (C18_order).
@@ -226,6 +227,7 @@ theorem C18_generated (Y : YieldFn) (F : BodyFn) (ts : List PTask) (w : World) (
     (hrn : g ∉ (setupProvisional { sm with so := sm.so.take [tv g] } g).renewed)
     (hend : s'.stop = false ∧ s'.crashed = false ∧ s'.so.isActive = false)
     (hcoll : ∀ x ∈ Y g (G.pdeps.map (fun sl => sl.res.getD (sl.pat.glob sm.w.fs))), x.uncollectable = false)
+    (hclash : nameClash sm.tasks (Y g (G.pdeps.map (fun sl => sl.res.getD (sl.pat.glob sm.w.fs)))) = false)
     (k : PTask) (hk : k ∈ Y g (G.pdeps.map (fun sl => sl.res.getD (sl.pat.glob sm.w.fs))))
     (hfresh : findTask sm.tasks k.id = none) :
     k.id ∈ post ∧ (∃ o, (k.id, o) ∈ s'.reports) ∧ s'.log.count k.id ≤ 1 := by
@@ -262,8 +264,9 @@ theorem C18_generated (Y : YieldFn) (F : BodyFn) (ts : List PTask) (w : World) (
   -- the defined task is in `session.tasks` after the generator's protocol, and stays known
   have hkin : k ∈ (stepOf Y F sm g).tasks := by
     show k ∈ (protocol Y F { sm with so := sm.so.take [tv g] } g).tasks
-    refine protocol_gen_tasks Y F { sm with so := sm.so.take [tv g] } g G hG hgen hnf hfm hrn ?_ k ?_
+    refine protocol_gen_tasks Y F { sm with so := sm.so.take [tv g] } g G hG hgen hnf hfm hrn ?_ ?_ k ?_
     · rw [received_resolvedDeps]; exact hcoll
+    · rw [received_resolvedDeps]; exact hclash
     · rw [received_resolvedDeps]; exact hk
   have hknown : (findTask s'.tasks k.id).isSome := (loop_mono post _ s' h5).2 _ (findTask_isSome_of_mem hkin)
   have hdone : k.id ∈ pre ++ g :: post := complete_all_done hi' hend.1 hend.2.2 _ hknown
@@ -307,7 +310,7 @@ set_option maxRecDepth 8000 in
 /-- `C18_generated`, `C18_producer_first`, `C18_order`, `C18_gen_once` instantiated on that build -/
 example : 21001 ∈ [3, 21000, 21001] ∧ (∃ o, (21001, o) ∈ exS'.reports) ∧ exS'.log.count 21001 ≤ 1 :=
   C18_generated exY f11F exTs exW exS0 exSm exS' [1] 2 [3, 21000, 21001] (by rfl) (by rfl) (by rfl) exGen (by decide +kernel) rfl rfl
-    (by decide +kernel) (by decide +kernel) (by decide +kernel) (by decide +kernel) { id := 21001, src := 9000, deps := [1001], prods := [21001] } (by decide +kernel) (by decide +kernel)
+    (by decide +kernel) (by decide +kernel) (by decide +kernel) (by decide +kernel) (by decide +kernel) { id := 21001, src := 9000, deps := [1001], prods := [21001] } (by decide +kernel) (by decide +kernel)
 
 set_option maxRecDepth 8000 in
 example : exProd.id ∈ [1, 2] :=
@@ -616,5 +619,150 @@ example : (stepOf exY f11F exSmB' 21000).log = exSmB'.log ++ [21000] :=
     exTs (Engine.insert exFull.w.fs 1000 77) exB0' exSmB' exSB' [1, 2, 3] [21001] (by rfl) (by rfl) (by rfl)
     (by decide +kernel) (by decide +kernel) (by decide +kernel) (by decide +kernel)).2 1000 (by decide) (by decide +kernel) (by decide +kernel)
     (by decide +kernel)
+
+/-- **C18_no_fail_no_marks** — discharges the mark hypotheses of the theorems above. In a build in which no task has been
+reported FAIL so far, no task carries a `skip_ancestor_failed` mark: neither one attached when an ancestor failed
+(`failMarks`), nor one renewed by `recreate_dag` (`renewed`), also not after the resolution of `t`'s own pattern
+dependencies re-created the DAG (provided that re-creation succeeded). -/
+theorem C18_no_fail_no_marks (Y : YieldFn) (F : BodyFn) (ts : List PTask) (w : World) (s0 sm : Prov.Sess) (pre : List Nat)
+    (h0 : initSess ts w = some s0) (h1 : loop Y F s0 pre = .ok sm) (hnf : NoFail sm) (t : Nat) :
+    t ∉ sm.failMarks ∧ t ∉ sm.renewed ∧
+    ((setupProvisional { sm with so := sm.so.take [tv t] } t).stop = false →
+      t ∉ (setupProvisional { sm with so := sm.so.take [tv t] } t).renewed) := by
+  have hc : CleanMarks sm := (loop_marks pre s0 sm h1).1 (initSess_marks h0).1
+  obtain ⟨e1, e2⟩ := hc hnf
+  refine ⟨by rw [e1]; simp, by rw [e2]; simp, fun hre => ?_⟩
+  have hm := setupProvisional_marks { sm with so := sm.so.take [tv t] } t
+  have hrep := hm.reports_of_running hre
+  have hc1 := hm.invariants.2.2.2.1 (show CleanMarks { sm with so := sm.so.take [tv t] } from hc)
+  have := (hc1 (fun r hr => hnf r (by rw [hrep] at hr; exact hr))).2
+  rw [this]; simp
+
+/-- `C18_rerun_runs` with the mark hypotheses discharged: in a build in which nothing has failed so far. -/
+theorem C18_rerun_runs_of_no_failure (Y : YieldFn) (F : BodyFn) (ts : List PTask) (w : World) (s0 sm s' : Prov.Sess) (pre : List Nat)
+    (t : Nat) (post : List Nat) (h0 : initSess ts w = some s0) (h1 : loop Y F s0 pre = .ok sm)
+    (h2 : loop Y F sm (t :: post) = .ok s') (hnf : NoFail sm)
+    (tk : PTask) (hf : findTask sm.tasks t = some tk) (hng : tk.gen = false)
+    (π : Pat) (hsl : (⟨π, none⟩ : Slot) ∈ tk.pdeps) (n : Nat) (hn : n ∈ π.glob sm.w.fs)
+    (hch : hasChanged sm.w t (nv n) (lookup sm.w.fs n) = true)
+    (hre : (setupProvisional { sm with so := sm.so.take [tv t] } t).stop = false)
+    (hun : ∀ sl ∈ tk.pdeps, sl.res = none) (hafter : tk.after = [])
+    (hdeps : ∀ d ∈ tk.cnt.toList ++ tk.deps, (lookup sm.w.fs d).isSome = true)
+    (hsrc : (lookup sm.w.fs tk.src).isSome = true) :
+    (stepOf Y F sm t).log = sm.log ++ [t] := by
+  obtain ⟨a, _, c⟩ := C18_no_fail_no_marks Y F ts w s0 sm pre h0 h1 hnf t
+  exact C18_rerun_runs Y F ts w s0 sm s' pre t post h0 h1 h2 tk hf hng a (c hre) π hsl n hn hch hre hun hafter hdeps hsrc
+
+/-- **C18_failed_ancestor_skips** (the C04 clause seen from M7). A build reaches state `sm` in which task `f` has been
+reported FAIL, and hands out `t`. If `t` lies below `f` in the graph as it is when the skipping hook looks — i.e. after
+`t`'s own pattern dependencies were resolved and the DAG re-created; `t` may have been created by a generator, or linked
+to `f` through a resolved pattern, *after* `f` failed (ee6b73e) — then `t` is not executed: its function is not called
+and it is reported SKIP_PREVIOUS_FAILED. -/
+theorem C18_failed_ancestor_skips (Y : YieldFn) (F : BodyFn) (ts : List PTask) (w : World) (s0 sm s' : Prov.Sess) (pre : List Nat)
+    (t : Nat) (post : List Nat) (h0 : initSess ts w = some s0) (h1 : loop Y F s0 pre = .ok sm)
+    (h2 : loop Y F sm (t :: post) = .ok s') (tk : PTask) (hf : findTask sm.tasks t = some tk)
+    (f : Nat) (hfail : (f, Outcome.fail) ∈ sm.reports)
+    (hre : (setupProvisional { sm with so := sm.so.take [tv t] } t).stop = false)
+    (hbelow : t ∈ taskDesc (setupProvisional { sm with so := sm.so.take [tv t] } t).g f) :
+    (stepOf Y F sm t).log = sm.log ∧ (stepOf Y F sm t).reports = sm.reports ++ [(t, Outcome.skipPrevFailed)] := by
+  have hb : BelowFailedMarked sm := (loop_marks pre s0 sm h1).2 (initSess_marks h0).2
+  generalize hsa : ({ sm with so := sm.so.take [tv t] } : Prov.Sess) = sa at hre hbelow
+  have hba : BelowFailedMarked sa := by subst hsa; exact hb
+  have hfa : findTask sa.tasks t = some tk := by subst hsa; exact hf
+  have hrepa : sa.reports = sm.reports := by subst hsa; rfl
+  have hloga : sa.log = sm.log := by subst hsa; rfl
+  have hstep : stepOf Y F sm t = { protocol Y F sa t with so := (protocol Y F sa t).so.finish [tv t] } := by subst hsa; rfl
+  have hm := setupProvisional_marks sa t
+  have hrep := hm.reports_of_running hre
+  have hmarked : failMarked (setupProvisional sa t) t = true :=
+    hm.invariants.2.2.2.2 hba hre f t (by rw [hrep, hrepa]; exact hfail) hbelow
+  have hsp := setupProvisional_spec sa t tk hfa
+  rw [hstep]
+  show (protocol Y F sa t).log = sm.log ∧ (protocol Y F sa t).reports = sm.reports ++ [(t, Outcome.skipPrevFailed)]
+  unfold protocol runPhases
+  rw [setupChain_eval]
+  simp only [hmarked, if_true]
+  rw [reportChain_eval]
+  simp only [addReport]
+  exact ⟨by rw [hsp.1.2.1, hloga], by rw [hrep, hrepa]⟩
+
+/-! Non-vacuity: task 1 (product 200) fails; afterwards generator 2 defines task 3, which depends on 200. When 1 failed, 3
+did not exist; the re-creation of the DAG after the generator renews the mark, and 3 is skipped. -/
+def faTs : List PTask := [{ id := 1, src := 9000, prods := [200], fails := true }, { id := 2, src := 9000, gen := true }]
+def faY : YieldFn := fun g _ => if g == 2 then [{ id := 3, src := 9000, deps := [200], prods := [201] }] else []
+def faW : World := ⟨[(9000, 1)], []⟩
+def faS0 : Prov.Sess := (initSess faTs faW).getD exDummy
+def faSm : Prov.Sess := match loop faY f11F faS0 [1, 2] with | .ok s => s | .error _ => exDummy
+def faS' : Prov.Sess := match loop faY f11F faSm [3] with | .ok s => s | .error _ => exDummy
+
+set_option maxRecDepth 8000 in
+example : (stepOf faY f11F faSm 3).log = faSm.log ∧ (stepOf faY f11F faSm 3).reports = faSm.reports ++ [(3, Outcome.skipPrevFailed)] :=
+  C18_failed_ancestor_skips faY f11F faTs faW faS0 faSm faS' [1, 2] 3 [] (by rfl) (by rfl) (by rfl)
+    { id := 3, src := 9000, deps := [200], prods := [201] } (by decide +kernel) 1 (by decide +kernel) (by decide +kernel) (by decide +kernel)
+
+set_option maxRecDepth 8000 in
+/-- the mark is a renewed one: task 3 was no descendant of task 1 when 1 failed -/
+example : faSm.failMarks = [] ∧ faSm.renewed = [3] ∧ faSm.reports = [(1, Outcome.fail), (2, Outcome.success)] := by decide +kernel
+
+set_option maxRecDepth 8000 in
+/-- `C18_rerun_runs_of_no_failure` / `C18_no_fail_no_marks` on the F11 project after a file was dropped in -/
+example : (stepOf f11Y f11F f11S3 1).log = f11S3.log ++ [1] :=
+  C18_rerun_runs_of_no_failure f11Y f11F [f11Task] f11W3 f11S3 f11S3 f11S3' [] 1 [] (by rfl) (by rfl) (by rfl)
+    (by show ∀ r ∈ f11S3.reports, r.2 ≠ Outcome.fail; decide +kernel) f11Task (by decide +kernel) rfl ⟨500000, 1000, 5⟩ (by decide) 1002 (by decide +kernel) (by decide +kernel) (by decide +kernel)
+    (by decide) rfl (by decide +kernel) (by decide +kernel)
+
+/-- `b` declares a dependency (a path, or a directory pattern — resolved or not) that `a` declares as a product. -/
+def declLinked (decl : List PTask) (a b : Nat) : Bool :=
+  decl.any (fun A => A.id == a && decl.any (fun B => B.id == b && A.allProds.any (fun n => B.allDeps.contains n)))
+
+def declChain (decl : List PTask) : List Nat → Bool
+  | a :: b :: r => declLinked decl a b && declChain decl (b :: r)
+  | _ => true
+
+/-- **C18_failed_ancestor_skips_full** — the clause at full strength: a task that depends on a failed task *transitively
+through declared products and dependencies* (`decl`: the task records as collected, or as defined by a generator) is not
+executed in that build. **False of the current code** (finding F42): the pattern dependency of a task that is skipped
+because an ancestor failed is resolved anyway, the re-created DAG loses the link to the failed producer, and the marks
+are renewed only below FAIL reports. -/
+def C18_failed_ancestor_skips_full : Prop :=
+  ∀ (Y : YieldFn) (F : BodyFn) (ts : List PTask) (w : World) (s0 sm s' : Prov.Sess) (pre : List Nat) (t : Nat) (post : List Nat)
+    (decl : List PTask) (f : Nat) (chain : List Nat),
+    initSess ts w = some s0 → loop Y F s0 pre = .ok sm → loop Y F sm (t :: post) = .ok s' →
+    (f, Outcome.fail) ∈ sm.reports → (∀ x ∈ decl, x ∈ ts ∨ ∃ g L, x ∈ Y g L) → declChain decl (f :: chain ++ [t]) = true →
+    (stepOf Y F sm t).log = sm.log
+
+/-! The F42 witness: 1 produces the pattern and raises; 2 consumes the pattern (its product 101 is left over); generator 5
+defines 6, which depends on 101. Order 1, 2, 5, 6. -/
+def f38Pat : Pat := ⟨500000, 1000, 5⟩
+def f38Ts : List PTask := [{ id := 1, src := 9000, pprods := [⟨f38Pat, none⟩], fails := true },
+                           { id := 2, src := 9000, deps := [100], pdeps := [⟨f38Pat, none⟩], prods := [101] },
+                           { id := 5, src := 9000, gen := true }]
+def f38Kid : PTask := { id := 6, src := 9000, deps := [101], prods := [106] }
+def f38Y : YieldFn := fun g _ => if g == 5 then [f38Kid] else []
+def f38W : World := ⟨[(9000, 1), (100, 12), (101, 5)], []⟩
+def f38S0 : Prov.Sess := (initSess f38Ts f38W).getD exDummy
+def f38Sm : Prov.Sess := match loop f38Y f11F f38S0 [1, 2, 5] with | .ok s => s | .error _ => exDummy
+def f38S' : Prov.Sess := match loop f38Y f11F f38Sm [6] with | .ok s => s | .error _ => exDummy
+
+set_option maxRecDepth 8000 in
+/-- **C18_failed_ancestor_skips_full_false** (finding F42): 6 depends on 2's product, 2 on the pattern 1 failed to produce;
+1 FAIL, 2 SKIP_PREVIOUS_FAILED — and the function of 6 is called. -/
+theorem C18_failed_ancestor_skips_full_false : ¬ C18_failed_ancestor_skips_full := by
+  intro h
+  have := h f38Y f11F f38Ts f38W f38S0 f38Sm f38S' [1, 2, 5] 6 [] (f38Ts ++ [f38Kid]) 1 [2] (by rfl) (by rfl) (by rfl)
+    (by decide +kernel)
+    (by
+      intro x hx
+      rcases List.mem_append.1 hx with hx | hx
+      · exact Or.inl hx
+      · exact Or.inr ⟨5, [], by simpa [f38Y] using hx⟩)
+    (by decide +kernel)
+  revert this
+  decide +kernel
+
+set_option maxRecDepth 8000 in
+/-- what the model (like the implementation) does on the witness -/
+example : f38Sm.reports = [(1, Outcome.fail), (2, Outcome.skipPrevFailed), (5, Outcome.success)] ∧
+    (stepOf f38Y f11F f38Sm 6).log = [1, 5, 6] := by decide +kernel
 
 end Pytask
